@@ -27,6 +27,11 @@ fn nt_sync(plan: &Plan, out: &RunOutcome) -> bool {
     data_ops(plan) >= 3 && (out.probes.get("index_marked_complete") >= 1 || out.probes.get("dirty_bound_checked") >= 1)
 }
 
+fn nt_restart(plan: &Plan, out: &RunOutcome) -> bool {
+    let damaged = out.fired.map.iter().any(|(k, v)| k.starts_with("index_") && *v > 0) || out.probes.get("index_truncation_length_swept") > 0;
+    data_ops(plan) >= 3 && damaged && out.probes.get("index_marked_complete") >= 1
+}
+
 fn nt_files(plan: &Plan, out: &RunOutcome) -> bool {
     data_ops(plan) >= 3 && out.events > 20
 }
@@ -70,6 +75,19 @@ pub fn spec_for(property: &str) -> Option<CheckSpec> {
             nontrivial: nt_seq,
             assumptions: a,
             expected_probes: vec!["delete_in_closed_blob", "dup_suppressed"],
+        },
+        "C03" => CheckSpec {
+            property: "C03".into(),
+            level: "fault_enumeration",
+            profiles: vec![p("restart", 6), p("restart-sweep", 3), p("seq", 1)],
+            quick_runs: 5_000,
+            thorough_runs: 200_000,
+            quick_budget_s: 75,
+            thorough_budget_s: 600,
+            nontrivial_rule: "sequential histories (incl. deletes into already indexed closed blobs, which make the on-disk index stale) with clean close + reopen (eager/lazy) at random points; between the sessions each index file may be removed, truncated (random length; in sweep runs every sampled truncation length of one index file, each followed by its own reopen), cut to the header, have its written flag cleared, or be replaced by an older copy of itself. Oracle after every reopen: init Ok, every data query of every key equals the model (and therefore the answers before the close), records_count unchanged, next_blob_id above every id ever seen, no panic. Thorough tier sweeps every byte length (restart-sweep-full). Non-trivial = >= 3 data operations, at least one index damage actually applied and at least one index completely written; distinct = distinct I/O event signature",
+            nontrivial: nt_restart,
+            assumptions: a,
+            expected_probes: vec!["index_truncation_length_swept", "index_remove", "index_truncate", "index_stale", "index_clear_written", "index_header_only"],
         },
         "C04" => CheckSpec {
             property: "C04".into(),
